@@ -1,5 +1,6 @@
 """C27 — Windowed and ordered window functions are computed per ordered partition (executor-model part + oracle)."""
-from .. import oracles
+from ..suites_ops import K2Build
+from .. import oracles, pipes
 from .refsem import suite
 
 PROPERTY = "C27"
@@ -41,5 +42,35 @@ RULE = ("random type-directed pipelines with windowed-extend weight x3, total wi
 
 CANDS = {"N6-polars-nunique-counts-null": "C27-polars-nunique-counts-null"}
 
-SUITES = [suite(PROPERTY, oracles.oracle_C27, CANDS, n_quick=160, n_thorough=600,
-                max_rows=10, window=3.0, total_order=True, null_keys=0.5)]
+def oracle_C27_declared(case, **opts):
+    """oracle_C27 (backends against each other and against the reference window values) plus a metamorphic test of
+    "in the DECLARED order": the same calls over tables whose columns are stored in the reverse order must give the same
+    rows (a window specification means what it says, not what the table layout suggests)"""
+    fs = list(oracles.oracle_C27(case, **opts) or [])
+    try:
+        t2 = {k: dict(t, cols=list(reversed(t["cols"])), kinds=list(reversed(t["kinds"])),
+                      rows=[list(reversed(r)) for r in t["rows"]]) for k, t in case["tables"].items()}
+        c2 = dict(case, tables=t2)
+        ops1, e1 = pipes.build_or_error(case)
+        ops2, e2 = pipes.build_or_error(c2)
+        if e1 is None and e2 is None:
+            r1, r2 = pipes.run_pandas(ops1, case["tables"]), pipes.run_pandas(ops2, t2)
+            if "ok" in r1 and "ok" in r2:
+                why = pipes.same_table(r1["ok"], r2["ok"])
+                if why:
+                    fs.append({"kind": "C27:table-column-order", "finding": None, "candidate": None,
+                               "detail": "the same calls over tables with the columns stored in reverse order give other rows: " + str(why)[:300]})
+    except Exception:
+        pass
+    return fs
+
+
+class _K2(K2Build):
+    """the builder calls themselves: window specifications (partition_by, order_by sequence, reverse) arrive in the node as given"""
+    gen_opts = dict(K2Build.gen_opts, fault_rate=0.0, window=4.0)
+    n_quick, n_thorough = 150, 1500
+
+
+SUITES = [suite(PROPERTY, oracle_C27_declared, CANDS, n_quick=160, n_thorough=600,
+                max_rows=10, window=3.0, total_order=True, null_keys=0.5),
+          _K2()]
